@@ -1676,15 +1676,23 @@ private:
     using wto_cycle_t = typename wto_cg_t::wto_cycle_t;
     using widening_set_t = std::set<typename CallGraph::node_t>;
     widening_set_t &m_widening_set;
+    unsigned m_depth;
     widening_set_builder(widening_set_t &widening_set)
-        : m_widening_set(widening_set) {}
+        : m_widening_set(widening_set), m_depth(0) {}
     virtual void visit(wto_cycle_t &cycle) override {
       m_widening_set.insert(cycle.head());
+      ++m_depth;
       for (auto &wto_component : cycle) {
         wto_component.accept(this);
       }
+      --m_depth;
     }
     virtual void visit(wto_vertex_t &vertex) override {
+      // every member of a call-graph cycle can be the target of the call that closes the
+      // cycle, whichever member the analysis enters first
+      if (m_depth > 0) {
+        m_widening_set.insert(vertex.node());
+      }
     }
   };
 
